@@ -15,6 +15,26 @@ CHECKS = {
    text="dumbindent: every lexically closed text up to length 6 (thorough 7) over a delimiter alphabet x 3 option sets, and every C file of the repository under indentation perturbations: terminates (in-process hang/heap watchdog), white-space-only, idempotent. wuffsfmt: every .wuffs file split into top-level chunks, every per-line layout mutation the formatter accepts: token+comment stream preserved, output parses, idempotent.",
    note="Lexical closure is the conservative definition in checks/c12 (strings close on their line; preprocessor lines closed on their own). Leading blank lines removed by dumbindent count as white space. Large chunks are line-strided in quick.",
    ref="DESIGN.md section 4 C12"),
+ "C13": dict(cat="fault_enumeration", engine="libmc",
+   technique="bounded-exhaustive enumeration of (payload, Write partition, configuration) and of every fault point of the underlying io.Writer/TempFile on the real rac.Writer",
+   text="Every payload over a 3-letter alphabet up to length 5 (thorough 7) under every partition into Write calls, every zero/non-zero run alternation under uniform write steps with CChunkSize, structured payloads x {zlib,lz4,zstd} x sizing x page size x index location x temp-file kind x resources; for a reduced configuration set every fault point k (fail-from-k and fail-once) of the Writer and of the TempFile's Write/Read/Seek. Oracles: an independent validator written from doc/spec/rac-spec.md, the real rac.Reader round trip, an independent leaf walker + compress/zlib; under faults Close must fail and errors must stay reported.",
+   note="Short writes with nil error are outside io.Writer's contract and not injected. lz4/zstd chunks are only decoded by the repository's own cgo codecs. The CPageSize page-minimising promise is not part of the property.",
+   ref="DESIGN.md section 4 C13"),
+ "C14": dict(cat="model_checking", engine="gosched",
+   technique="stateless model checking of the real conc_reader.go under a controlled cooperative scheduler (preemption/deviation-bounded DFS with happens-before state pruning), plus explicit BFS over call sequences against a reference model",
+   text="lib/rac/conc_reader.go is rewritten mechanically (go/ast, every chan/make/send/recv/select/close/go routed through a scheduler library injected with go build -overlay; unknown constructs abort the check) and the real rac.Reader is run for each (history, file, Concurrency 2/3) under every schedule within the bounds (quick: <=1 preemption and <=1 select/rendezvous deviation on 3 chunks, reduced bounds on 6/12 chunks; thorough: 2/2 and unbounded on 3 chunks): no deadlock, no goroutine left after Close, no panic, results equal a bytes.Reader+limit model in every schedule. Sequential readers (Concurrency 0/1) are explored by BFS over all call sequences to depth 3 (4) over a 41-symbol alphabet on 7 files.",
+   note="Threads share memory only through channels (the rewriter refuses sync/atomic/time; data races are invisible to a cooperative scheduler). Loan buffers are shrunk from 64 KiB to 8 bytes in the explored twin (capacity only). Map iteration in recycleBuffers is fixed, not explored. An identity codec replaces zlib in the scheduled runs.",
+   ref="DESIGN.md section 4 C14, Appendix A"),
+ "C15": dict(cat="fault_enumeration", engine="libmc",
+   technique="exhaustive enumeration of single-byte, field-level and structural mutations (checksum repaired) of small valid files, walked on the real readers over an operation-counting ReadSeeker",
+   text="For 10 seed files (writer-made and hand-built two-level / long-codec indexes): every byte replaced by every value (with and without checksum repair), every index field set to each boundary value (pairs within small nodes), every re-pointing of a child at any node as a branch, every truncation and wrong claimed size, the empty file with any two bytes replaced. Each mutant: ChunkReader walk twice and Reader seek/read twice; no panic, work within a read/seek budget proportional to the file (plus a CPU watchdog), chunks well-formed, contiguous and ending at DecompressedSize, same bytes both times.",
+   note="Work is metered in Read/Seek calls (budget 4000+40*len); zstd chunks are not exercised.",
+   ref="DESIGN.md section 4 C15"),
+ "C17": dict(cat="exploration", engine="libmc",
+   technique="bounded-exhaustive enumeration of payloads and of single/adjacent-pair byte mutations of encoded seeds, against the package's own decoder and the system xz tool",
+   text="Every payload over {00,5A,FF} up to length 8 (thorough 9) and structured long payloads (carry chains, chunk-size boundaries) x {LZMA, XZ}: Decode(Encode(p)) == p with nothing left over, and xz -dc decodes the same bytes (batched). Robustness: every byte string of length <= 2, every truncation, deletion, insertion, single-byte and adjacent-pair replacement of 9-10 seeds per format: no panic, no hang, output <= 64*len(in)+64KiB.",
+   note="Trusts the system xz tool as the independent decoder (reported as SKIPPED, not passed, if absent). The cross-check against the generated Wuffs std/lzma and std/xz C decoders is made by the C-level checks, not here.",
+   ref="DESIGN.md section 4 C17"),
 }
 
 NOT_YET = "check not built yet in this session (design in DESIGN.md section 4); no claim made"
